@@ -23,6 +23,8 @@ type catEntry struct {
 type catalogue struct {
 	Types   string              `json:"types"`
 	Entries map[string]catEntry `json:"entries"`
+	// Scenarios: obligation name prefix -> scenario test file (package plenc) under /verif/replay/scenarios
+	Scenarios map[string]string `json:"scenarios"`
 }
 
 func loadCatalogue(verif string) *catalogue {
@@ -181,6 +183,51 @@ func marshalReplay(ent catEntry, data []byte, workdir, repo string) *ReplayResul
 		res.Detail = "Marshal kept the buffer prefix for every catalogue value"
 	default:
 		res.Detail = "catalogue test did not run: " + firstLines(raw, 3)
+	}
+	return res
+}
+
+// scenarioReplay runs a hand-written witness scenario for an obligation about
+// ghost state (history, staleness) that no single input of the function can show.
+func scenarioReplay(verif, file, workdir, repo string) *ReplayResult {
+	res := &ReplayResult{How: "not-replayable"}
+	src, err := os.ReadFile(filepath.Join(verif, "replay", "scenarios", file))
+	if err != nil {
+		res.Detail = err.Error()
+		return res
+	}
+	testFile := filepath.Join(workdir, "plencvc_scn_test.go")
+	os.WriteFile(testFile, src, 0o644)
+	ov := map[string]map[string]string{"Replace": {filepath.Join(repo, "plencvc_scn_test.go"): testFile}}
+	ovb, _ := json.Marshal(ov)
+	ovFile := filepath.Join(workdir, "overlay_scn.json")
+	os.WriteFile(ovFile, ovb, 0o644)
+	ctx, cancel := context.WithTimeout(context.Background(), 120*time.Second)
+	defer cancel()
+	sh := fmt.Sprintf("ulimit -v 8000000; cd %s && exec go test -overlay %s -vet=off -count=1 -v -timeout 30s -run '^TestPlencvcReplay$' .", repo, ovFile)
+	cmd := exec.CommandContext(ctx, "sh", "-c", sh)
+	cmd.Env = append(os.Environ(), "GOFLAGS=-mod=mod", "GOPROXY=off", "GOSUMDB=off", "GOTOOLCHAIN=local")
+	var ob bytes.Buffer
+	cmd.Stdout = &ob
+	cmd.Stderr = &ob
+	cmd.Run()
+	raw := ob.String()
+	res.GoTest = string(src)
+	res.Output = tail(raw, 2000)
+	switch {
+	case strings.Contains(raw, "REPLAY-SCENARIO-FAILED"):
+		res.Reproduced = true
+		res.How = "witness-scenario-fails-on-the-real-code"
+		res.Detail = firstMatch(raw, "REPLAY-SCENARIO-FAILED")
+	case strings.Contains(raw, "REPLAY-SCENARIO-PASSED"):
+		res.How = "not-reproduced"
+		res.Detail = "the witness scenario passes on the real code"
+	case strings.Contains(raw, "panic:") || strings.Contains(raw, "fatal error:"):
+		res.Reproduced = true
+		res.How = "panic"
+		res.Detail = firstMatch(raw, "panic:", "fatal error:")
+	default:
+		res.Detail = "scenario did not run: " + firstLines(raw, 3)
 	}
 	return res
 }
